@@ -31,6 +31,10 @@ type Contract struct {
 	// ParamNames: the names the contract uses for the receiver and parameters, by position
 	// ("func key(recv, a, b)"). When the code renames a parameter the contract keeps binding by position.
 	ParamNames []string
+	// LocalNames: the named locals of the function in declaration (SSA) order, as they were when the
+	// contract was written ("locals a, b, c"). If the code renames locals without adding or removing any,
+	// clauses that mention the old names keep binding by position.
+	LocalNames []string
 }
 
 type Clause struct {
@@ -71,6 +75,9 @@ type Contracts struct {
 	MapRanges map[string]string
 	// SMT: raw SMT-LIB axioms defining spec functions (trusted definitions, printed in the evidence)
 	SMT []string
+	// Names: "names key(recv, a, b) locals x, y" - the parameter and local names a check file uses for a
+	// function that has no contract of its own (analysis conditions name them); bound by position.
+	Names map[string]*Contract
 }
 
 type SpecFn struct {
@@ -233,7 +240,7 @@ func parseClause(text string) (Clause, error) {
 // ParseContracts reads every "//@" line of the given files (name -> text). Keys are fully
 // qualified: pkg.Func, pkg.Type.Method (pkg = last import path element; lib/go is "lib").
 func ParseContracts(files map[string]string) (*Contracts, error) {
-	cs := &Contracts{Funcs: map[string]*Contract{}, Containers: map[string]string{}, Preds: map[string]*Pred{}, TypeInvs: map[string]Clause{}, Immutable: map[string]bool{}, Folds: map[string]*Fold{}, SpecFns: map[string]*SpecFn{}, MapRanges: map[string]string{}, Defines: map[string]*Pred{}}
+	cs := &Contracts{Funcs: map[string]*Contract{}, Containers: map[string]string{}, Preds: map[string]*Pred{}, TypeInvs: map[string]Clause{}, Immutable: map[string]bool{}, Folds: map[string]*Fold{}, SpecFns: map[string]*SpecFn{}, MapRanges: map[string]string{}, Defines: map[string]*Pred{}, Names: map[string]*Contract{}}
 	var names []string
 	for n := range files {
 		names = append(names, n)
@@ -393,6 +400,39 @@ func ParseContracts(files map[string]string) (*Contracts, error) {
 				cs.Guards = append(cs.Guards, g)
 				curGuard = g
 				cur = nil
+			case "names":
+				// names key(recv, a, b) locals x, y, z
+				head, locs := rest, ""
+				if i := strings.Index(rest, " locals"); i >= 0 {
+					head, locs = strings.TrimSpace(rest[:i]), strings.TrimSpace(rest[i+7:])
+				}
+				nc := &Contract{}
+				if lp := strings.Index(head, "("); lp > 0 && strings.HasSuffix(head, ")") {
+					nc.Key = strings.TrimSpace(head[:lp])
+					for _, a := range strings.Split(head[lp+1:len(head)-1], ",") {
+						if a = strings.TrimSpace(a); a != "" {
+							nc.ParamNames = append(nc.ParamNames, a)
+						}
+					}
+				} else {
+					nc.Key = head
+				}
+				for _, a := range strings.Split(locs, ",") {
+					if a = strings.TrimSpace(a); a != "" {
+						nc.LocalNames = append(nc.LocalNames, a)
+					}
+				}
+				cs.Names[nc.Key] = nc
+				cur, curGuard = nil, nil
+			case "locals":
+				if cur == nil {
+					return nil, fail(fmt.Errorf("locals outside a function contract"))
+				}
+				for _, a := range strings.Split(rest, ",") {
+					if a = strings.TrimSpace(a); a != "" {
+						cur.LocalNames = append(cur.LocalNames, a)
+					}
+				}
 			case "requires", "ensures", "ensures_exclusive", "decreases", "invariant":
 				cl, err := parseClause(rest)
 				if err != nil {
